@@ -74,6 +74,7 @@ class Check:
         self.t0 = time.time()
         self.quiet = quiet
         self.rules_doc: dict = {}
+        self.incomplete: list[str] = []   # AnalysisErrors of guarded rule groups (the rest of the run continues)
 
     # -- recording ---------------------------------------------------------------
     def rule(self, rid: str, text: str):
@@ -101,6 +102,15 @@ class Check:
         if not cond:
             raise AnalysisError(msg)
 
+    def guard(self, fn, *args, **kw):
+        """Run one independent rule group.  An unrecognised idiom / vanished anchor inside it is recorded and the other
+        groups still run: a definite violation found elsewhere is reported (exit 1); without one the run is undecided (exit 2)."""
+        try:
+            return fn(*args, **kw)
+        except AnalysisError as e:
+            self.incomplete.append(str(e))
+            return None
+
     # -- results -----------------------------------------------------------------
     def violations(self):
         seen, out = set(), []
@@ -109,6 +119,10 @@ class Check:
                 seen.add(o.ident())
                 out.append(o)
         return out
+
+    def unlisted_violations(self, known_path: str = KNOWN):
+        known, _ = load_known(known_path)
+        return [o for o in self.violations() if (self.pid, o.rule, o.site, o.key) not in known]
 
     def result_idents(self):
         return {o.ident() for o in self.obs if not o.ok}
@@ -147,6 +161,8 @@ class Check:
         n_ok = sum(1 for o in self.obs if o.ok)
         if not unlisted:
             lines.append(f"OK property={self.pid} tier={self.tier} obligations={n_ob} discharged={n_ok} known_findings={len(listed)}")
+        for msg in self.incomplete:
+            lines.append(f"note: analysis incomplete (rule group undecided): {msg}")
         for k in stale:
             lines.append(f"note: known_findings entry no longer reproduces (not an error): rule={k[1]} site={k[2]} key={k[3]}")
         if selftest:
@@ -191,6 +207,7 @@ class Check:
             "counts": self.counts,
             "floors": [{"name": n, "found": f, "minimum": m} for n, f, m in self.floors],
             "notes": self.notes,
+            "undecided_rule_groups": self.incomplete,
             "known_findings": [o.as_dict() for o in listed],
             "unlisted_violations": [o.as_dict() for o in unlisted],
             "checker_cmd": f"python3-vt -m rlxcheck --property {self.pid} --tier {self.tier}",
